@@ -38,6 +38,17 @@ def rule_queue(ctx):
             okr = len(rets) == 1 and isinstance(el, ast.Tuple) and len(el.elts) == 3 and isinstance(rets[0].ast.value, ast.Call) and call_name(rets[0].ast.value) == "wait_for" \
                 and unparse(arg_of(rets[0].ast.value, 0)) == unparse(el.elts[2]) and unparse(arg_of(rets[0].ast.value, 1)) == "self._request_timeout"
             ctx.ob(R, fi, ap[0], okr, f"{m}: the future returned to the caller is not the queued one (with the request timeout)", text=f"{m}:returns-queued-future")
+    # a request is queued exactly when a reply is expected: an unqueued request whose reply arrives would be matched with the NEXT
+    # request's entry; a queued one without a reply would shift every later match
+    from ..rulekit import must_facts
+    for m in ("send", "_send_sasl_token"):
+        fi = ctx.fn(f"{CONN}.{m}")
+        c = ctx.cfg(fi)
+        mf = must_facts(c)
+        ap = [n for n in c.calls(attr="append") if unparse(n.ast.func.value) == "self._requests"]
+        dr = [r for r in c.nodes if r.kind == "return" and isinstance(r.ast.value, ast.Call) and call_attr(r.ast.value) == "drain"]
+        ok = len(ap) == 1 and ("expect_response", "truthy", "") in mf[ap[0]] and bool(dr) and all(("expect_response", "falsy", "") in mf[r] for r in dr)
+        ctx.ob(R, fi, fi.node, ok, f"{m}: the request is not queued exactly when a reply is expected", text=f"{m}:queued-iff-reply-expected")
     fi = ctx.fn(f"{CONN}.send")
     c = ctx.cfg(fi)
     ap = [n for n in c.calls(attr="append") if unparse(n.ast.func.value) == "self._requests"]
@@ -130,6 +141,17 @@ def rule_match(ctx):
         ctx.ob(R, fi, pop[0], ok, "the head entry can be completed/popped without the correlation id of the frame being compared (e.g. when its waiter "
                                   "was cancelled or timed out): a desynchronised stream goes unnoticed", text="pop-after-comparison")
     sr = [n for n in c.calls(attr="set_result") if dotted(n.ast.func.value) == fut]
+    # the waiter of the head entry is answered before the entry is removed: from the arm on which its future is still pending the pop
+    # is unreachable without set_result / set_exception on that future
+    dn = [t for t in c.nodes if t.kind == "test" and unparse(t.ast) == f"{fut}.done()"]
+    resolved = set(sr) | {n for n in c.calls(attr="set_exception") if dotted(n.ast.func.value) == fut}
+    ctx.anchor(len(dn) >= 2, f"`{fut}.done()` tests in _handle_frame")
+    if pop:
+        for t in dn:
+            pend = [m for m, l in t.succ if l == "F"]
+            ok = pop[0] not in c.reachable(pend, avoid=resolved, exc=False, include_src=True)
+            ctx.ob(R, fi, t, ok, "the head entry can be removed while its (still pending) waiter was neither given the reply nor failed: the caller waits until its timeout",
+                   text="answered-before-pop")
     for s in sr:
         if c.dominated_by_branch(sasl, SASL_T, s):
             continue
